@@ -20,7 +20,7 @@ TRUSTED_BASE = [
     "the VC generator (vt.gtensor/vt.expr); mitigated by canaries and the per-obligation soundness monitor",
 ]
 ASSUMPTIONS = [
-    "tensor order is enumerated (quick: 1..4, thorough: 1..5), not quantified; mode sizes and entries are universally quantified",
+    "tensor order is enumerated (quick: 1..5, thorough: 1..6), not quantified; mode sizes and entries are universally quantified",
     "dtype is a tag propagated by the layout primitives (they do no arithmetic): swept over float32,float64,complex128,int64",
 ]
 QUANTIFICATION = "forall mode sizes n_k >= 1, forall entries, forall dtype in the swept set; enumerated: order, mode, (skip_begin, skip_end, ravel), (row_modes, column_modes)"
@@ -41,7 +41,7 @@ def obligations(tier):
     import tensorly.base as base
     from tensorly.backend.core import Backend
 
-    maxN = 4 if tier == "quick" else 5
+    maxN = 5 if tier == "quick" else 6
     obs = []
 
     def add(name, function, setup, call, post, instance, clause, **kw):
